@@ -641,6 +641,9 @@ def obligations(tier):
     out.append(Obligation('is-executable', ob_isexec(), dict(mode='9 symbolic permission bits', umask='022'), labels=('done',)))
     out.append(Obligation('selection', ob_selection(), dict(tags='none | runtime | runtime,devel', skip_subprojects='none | sub | *', entry='4 tags x 3 subprojects', dry_run='symbolic'),
                           labels=('admitted', 'skipped')))
+    import harness.c15 as _c15; _c15.setup()
+    from harness.c15 import ob_install_generators          # the step BEFORE the installer: what install_subdir() / install_data() / ... put into install.dat (decided for C15 as well)
+    out.append(Obligation('install-entries', ob_install_generators(), dict(real='Backend.generate_header_install / generate_man_install / generate_data_install / generate_subdir_install, TargetInstallData', kinds='headers | man | data | install_subdir | build target', directories='1-3 chars over ab/ (trailing slash, absolute, nested)', strip_directory='both'), labels=('headers', 'man', 'data', 'install_subdirs', 'targets', 'subdir-named'), max_paths=3000000))
     out.append(Obligation('install-targets-world', ob_install_targets_world(), dict(real='Installer.do_install -> install_targets -> do_copyfile / do_copydir / set_mode / DirMaker / log, scripts.uninstall on a scratch directory',
                           targets='up to 3 in sequence: executable file | plain file | DIRECTORY output | optional missing output | none', install_mode='none | rw-r--r-- | rwxr-x---', install_umask='022 | 077 | 002'),
                           labels=('installed', 'directory-among-others'), optional_labels=('nothing',), max_paths=2000000))
